@@ -369,6 +369,31 @@ func TestCheck(t *testing.T) {
 					r.Violation("GetResults:wrong:"+classify(rc, lk.ctx, got, want), key, fmt.Sprintf("record %s (json=%v) lookup ctx=%q md=%s: %s; got %v want %v", rkey, viaJSON, lk.ctx, mdStr(lk.md), why, fmtGot(got), want), nil)
 					continue
 				}
+				// the same lookup again on the same cache: same answer, and the first
+				// answer is left alone. Every further call gets private copies of
+				// its arguments (an answer legitimately contains the context ID and
+				// metadata slices the caller passed in).
+				cp := func(b []byte) []byte {
+					if b == nil {
+						return nil
+					}
+					return append([]byte{}, b...)
+				}
+				first := fmtGot(got)
+				var got2 []model.ProviderResult
+				var err2 error
+				if pn, m := vp.Guard(func() { got2, err2 = pc.GetResults(context.Background(), mainID, cp(lk.ctx), cp(lk.md)) }); pn {
+					r.Violation("GetResults:panic:second-call", key, firstLine(m), nil)
+					continue
+				}
+				if err2 != nil || fmtGot(got2) != first {
+					r.Violation("GetResults:second-call-differs", key, fmt.Sprintf("record %s lookup ctx=%q: first call %s, second call %s (err %v)", rkey, lk.ctx, first, fmtGot(got2), err2), nil)
+					continue
+				}
+				if fmtGot(got) != first {
+					r.Violation("GetResults:first-answer-altered-by-second-call", key, fmt.Sprintf("first answer was %s and reads %s after a second call", first, fmtGot(got)), nil)
+					continue
+				}
 				r.Outcome(fmt.Sprintf("ok-%d-results", len(got)))
 				if len(got) >= 4 {
 					r.Sample(map[string]any{"record": rkey, "lookup_ctx": string(lk.ctx), "results": fmt.Sprint(want)})
